@@ -192,3 +192,16 @@ Theorem C19_canonical_unique : forall s n,
   canonical_dec s -> dec_value s = Some n -> s = print_dec n.
 Proof. exact canonical_dec_unique. Qed.
 Print Assumptions C19_canonical_unique.
+
+(* ---- dynamic-size hex decoding ---- *)
+From Ztyp Require Import Extras ExtrasProofs.
+
+Theorem C19_dynamic_hex_roundtrip :
+  forall bs, dynamic_bytes_unmarshal (bytes_marshal_text bs) = Some bs.
+Proof. exact dynamic_bytes_roundtrip. Qed.
+Print Assumptions C19_dynamic_hex_roundtrip.
+
+Theorem C19_dynamic_hex_length :
+  forall text bs, dynamic_bytes_unmarshal text = Some bs -> lenN (strip_0x text) = 2 * lenN bs.
+Proof. exact dynamic_bytes_length. Qed.
+Print Assumptions C19_dynamic_hex_length.
